@@ -21,7 +21,7 @@ package centrifuge
 //   call op=subscribe|unsubscribe|disconnect|refresh user=<hex> [ch=<hex>] opts=<opts>   -> {"L":obs,"R":obs}
 // <opts> = `-` or `WithName:value;WithName:value`; values: bool 0/1, ints decimal, strings/bytes hex (`-` empty),
 // stream position `off:epochhex` (epoch `40` = "@" = the current epoch of the channel on node B) or nil,
-// label filter nil|F1..F4 (same table as props/C27/gen.py NAMED_FILTERS), Unsubscribe/Disconnect `code:reasonhex`,
+// label filter nil|F1..F5 (same table as props/C27/gen.py NAMED_FILTERS), Unsubscribe/Disconnect `code:reasonhex`,
 // string list comma separated hex.
 
 import (
@@ -216,6 +216,7 @@ var vcNamedFilters = map[string]*FilterNode{
 	"F3": {Op: "and", Nodes: []*FilterNode{{Op: "", Key: "region", Cmp: "eq", Val: "eu"},
 		{Op: "not", Nodes: []*FilterNode{{Op: "", Key: "tier", Cmp: "eq", Val: "free"}}}}},
 	"F4": {Op: "", Key: "region", Cmp: "ex"},
+	"F5": {Op: "", Key: "region", Cmp: "bogus", Val: "x"}, // rejected by filter.Validate
 }
 
 func vcUnhex(s string) (string, error) {
